@@ -195,17 +195,25 @@ class _TableFormSection(object):
   def is_relevant_section(cls, section_name):
     return cls._section_name_regex.match(section_name) != None
 
+  @staticmethod
+  def _table_value(v):
+    # float() also accepts 'nan' and 'inf', which are not tabulated data
+    f = float(v)
+    if f != f or f in (float("inf"), float("-inf")):
+      raise ValueError("'{}' is not a finite number".format(v))
+    return f
+
   def _parse_x_y(self, section_name, section):
     x_string = section["x"]
     y_string = section["y"]
 
     try:
-      x = [float(v) for v in x_string.split()]
+      x = [self._table_value(v) for v in x_string.split()]
     except ValueError as e:
       raise ConfigParserException("Error converting value into a float whilst parsing the 'x' entry of '{}': {}".format(section_name, e.args[0]))
 
     try:
-      y = [float(v) for v in y_string.split()]
+      y = [self._table_value(v) for v in y_string.split()]
     except ValueError as e:
       raise ConfigParserException("Error converting value into a float whilst parsing the 'y' entry of '{}': {}".format(section_name, e.args[0]))
 
@@ -218,7 +226,7 @@ class _TableFormSection(object):
     xy_string = section["xy"]
 
     try:
-      xy = [float(v) for v in xy_string.split()]
+      xy = [self._table_value(v) for v in xy_string.split()]
     except ValueError as e:
       raise ConfigParserException("Error converting value into a float whilst parsing the 'xy' entry of '{}': {}".format(section_name, e.args[0]))
 
